@@ -760,6 +760,22 @@ func buildPoints(pts []point) (*benchseries.ComparisonSeries, []string, []string
 	return css[0], benchNames, serNames
 }
 
+// definedGrid renders Summaries[series][benchmark].Defined() row by row: a grid position is defined exactly
+// when that point has numerator and baseline measurements.
+func definedGrid(cs *benchseries.ComparisonSeries) string {
+	var sb strings.Builder
+	for i := range cs.Series {
+		for j := range cs.Benchmarks {
+			if cs.Summaries[i][j].Defined() {
+				sb.WriteByte('1')
+			} else {
+				sb.WriteByte('0')
+			}
+		}
+	}
+	return sb.String()
+}
+
 func sumBits(s *benchseries.ComparisonSummary) string {
 	return nanCanon(s.Low) + ":" + nanCanon(s.Center) + ":" + nanCanon(s.High)
 }
@@ -781,14 +797,16 @@ func multiCase(pts []point, conf float64, n int, tag string) {
 		if !ok {
 			panic("no comparison")
 		}
-		rng := rand.New(rand.NewSource(benchseries.VerifSeed(c)))
 		var stream []string
-		for k := 0; k < n; k++ {
-			for range p.nu {
-				stream = append(stream, strconv.Itoa(rng.Intn(len(p.nu))))
-			}
-			for range p.de {
-				stream = append(stream, strconv.Itoa(rng.Intn(len(p.de))))
+		if len(p.de) > 0 { // a point without baseline is never bootstrapped
+			rng := rand.New(rand.NewSource(benchseries.VerifSeed(c)))
+			for k := 0; k < n; k++ {
+				for range p.nu {
+					stream = append(stream, strconv.Itoa(rng.Intn(len(p.nu))))
+				}
+				for range p.de {
+					stream = append(stream, strconv.Itoa(rng.Intn(len(p.de))))
+				}
 			}
 		}
 		enc = append(enc, bitsList(p.nu)+";"+bitsList(p.de)+";"+strings.Join(stream, ","))
@@ -800,6 +818,17 @@ func multiCase(pts []point, conf float64, n int, tag string) {
 		sum, ok := cs.SummaryAt(benchNames[i], serNames[i])
 		if !ok || sum == nil {
 			panic("no summary")
+		}
+		if len(p.de) == 0 {
+			// incomplete point: no summary values; it must say so
+			sums = append(sums, "-")
+			in = append(in, "n")
+			if sum.Present {
+				same = append(same, "0")
+			} else {
+				same = append(same, "1")
+			}
+			continue
 		}
 		sums = append(sums, sumBits(sum))
 		// the same samples alone
@@ -837,8 +866,9 @@ func multiCase(pts []point, conf float64, n int, tag string) {
 			in = append(in, "0")
 		}
 	}
-	hx.Printf("obs %d sums=%s\n", cid, strings.Join(sums, ","))
-	hx.Printf("sobs %d same=%s in=%s\n", cid, strings.Join(same, ""), strings.Join(in, ""))
+	def := definedGrid(cs)
+	hx.Printf("obs %d sums=%s def=%s\n", cid, strings.Join(sums, ","), def)
+	hx.Printf("sobs %d same=%s in=%s def=%s\n", cid, strings.Join(same, ""), strings.Join(in, ""), def)
 }
 
 func multiCases(r *hx.Rand) {
@@ -849,6 +879,7 @@ func multiCases(r *hx.Rand) {
 	multiCase([]point{{[]float64{1, 2, 3}, []float64{0}}, {[]float64{7, 8}, []float64{0}}}, 0.9, 5, "corpus+seedzero")
 	multiCase([]point{{[]float64{0}, []float64{1, 2}}, {[]float64{0}, []float64{4, 5, 6}}, {[]float64{3}, []float64{0}}}, 0.8, 4, "corpus+seedzero")
 	multiCase([]point{{[]float64{100}, []float64{200}}, {[]float64{200}, []float64{100}}}, 0.95, 10, "corpus+mirror+exact")
+	multiCase([]point{{a, b}, {b, nil}, {a, nil}, {b, a}}, 0.9, 5, "corpus+incomplete")
 	nm := hx.N(120, 2000)
 	confs := []float64{0.95, 0.9, 0.99, 0.8, 0.5}
 	for i := 0; i < nm; i++ {
@@ -872,8 +903,15 @@ func multiCases(r *hx.Rand) {
 				tags["mirror"] = true
 			}
 		}
+		if r.Chance(1, 3) { // a point whose baseline is missing
+			pts[r.Intn(len(pts))].de = nil
+			tags["incomplete"] = true
+		}
 		for i := range pts {
 			for j := 0; j < i; j++ {
+				if len(pts[i].de) == 0 || len(pts[j].de) == 0 {
+					continue
+				}
 				if &pts[i].nu[0] == &pts[j].nu[0] && &pts[i].de[0] == &pts[j].de[0] {
 					tags["identical"] = true
 				}
@@ -1006,8 +1044,9 @@ func incrCase(pts []point, cut []([2]int), conf float64, n int, tag string) {
 			in = append(in, "0")
 		}
 	}
-	hx.Printf("obs %d sums=%s\n", cid, strings.Join(sums, ","))
-	hx.Printf("sobs %d same=%s in=%s\n", cid, strings.Join(same, ""), strings.Join(in, ""))
+	def := definedGrid(cs)
+	hx.Printf("obs %d sums=%s def=%s\n", cid, strings.Join(sums, ","), def)
+	hx.Printf("sobs %d same=%s in=%s def=%s\n", cid, strings.Join(same, ""), strings.Join(in, ""), def)
 }
 
 func incrCases(r *hx.Rand) {
@@ -1056,6 +1095,8 @@ func genSample(r *hx.Rand, n int, kind int) []float64 {
 			out[i] = base + float64(r.Intn(3))
 		case 3: // awkward mantissas
 			out[i] = (0.5 + r.Float()*3)
+		case 5: // magnitudes whose ratios overflow to +Inf / underflow to 0
+			out[i] = []float64{1e300, 1e-300, 1, 2, 1e300}[r.Intn(5)]
 		default: // zeros and negatives
 			out[i] = float64(r.Intn(5) - 2)
 		}
@@ -1080,6 +1121,14 @@ func bootstrapCases(r *hx.Rand) {
 		de := genSample(r, 1+r.Intn(6), kind)
 		bootCase(nu, de, hx.Pick(r, confs), n, "n"+strconv.Itoa(n)+"+k"+strconv.Itoa(kind))
 	}
+	// overflowing ratios: the percentile must not multiply an infinite neighbour by a zero weight
+	bootCase([]float64{1e300, 1, 1e300}, []float64{1e-300, 1}, 0.5, 4, "corpus+huge")
+	bootCase([]float64{1e300, 1}, []float64{1e-300, 1}, 0, 2, "corpus+huge")
+	nh := hx.N(120, 1500)
+	for i := 0; i < nh; i++ {
+		n := []int{2, 4, 10, 3, 5}[r.Intn(5)]
+		bootCase(genSample(r, 1+r.Intn(4), 5), genSample(r, 1+r.Intn(4), 5), []float64{0.5, 0, 0.8, 0.6, 0.9}[r.Intn(5)], n, "n"+strconv.Itoa(n)+"+huge")
+	}
 	nbig := hx.N(6, 60)
 	for i := 0; i < nbig; i++ {
 		kind := r.Intn(4)
@@ -1092,6 +1141,9 @@ func bootstrapCases(r *hx.Rand) {
 	for i := 0; i < npct; i++ {
 		n := 1 + r.Intn(12)
 		a := genSample(r, n, r.Intn(5))
+		if r.Chance(1, 8) {
+			a[r.Intn(n)] = math.Inf(1)
+		}
 		sort.Float64s(a)
 		var p float64
 		switch r.Intn(6) {
